@@ -1741,6 +1741,12 @@ func (sc *serverConn) processHeaders(f *MetaHeadersFrame) error {
 	// point, if it's valid).
 	st := sc.streams[f.Header().StreamID]
 	if st != nil {
+		// RFC 7540 section 5.1: HEADERS for a stream in the "half-closed (remote)"
+		// state is a stream error of type STREAM_CLOSED. (The request of such a
+		// stream has already ended: it has no body that trailers could end.)
+		if st.state == stateHalfClosedRemote {
+			return StreamError{id, ErrCodeStreamClosed, "recv HEADERS frame from stream in 'half closed(remote)' state"}
+		}
 		return st.processTrailerHeaders(f)
 	}
 
